@@ -2,7 +2,8 @@
 //!
 //! Case ops:
 //!   sock <kind>                       add a socket (0 tcp-connect, 1 udp-to-unresolved, 2 dns, 3 dhcp,
-//!                                     4 tcp established by a scripted peer, keep-alive switched on then off)
+//!                                     4 tcp established by a scripted peer, keep-alive switched on then off,
+//!                                     5 tcp established by a scripted peer, idle, user timeout 3 s set at its third poll)
 //!   poll <ms> pa=<v;v;..> [ra <router> <life_s> <pfx|-> <valid_s>]*
 //!        `pa` = the deadline each socket reports on its own (recorded by `gen` from
 //!        single-socket interfaces without SLAAC; µs or `n` for none)
@@ -57,7 +58,7 @@ fn mk_node_mtu(slaac: bool, seed: u64, dev_mtu: usize) -> Node {
 
 fn add_sock(n: &mut Node, kind: u32, idx: usize) {
     let h = match kind {
-        0 | 4 => {
+        0 | 4 | 5 => {
             let rx = tcp::SocketBuffer::new(vec![0; 1024]);
             let tx = tcp::SocketBuffer::new(vec![0; 1024]);
             n.sockets.add(tcp::Socket::new(rx, tx))
@@ -101,6 +102,12 @@ fn start_sock(n: &mut Node, i: usize) {
                     let s = n.sockets.get_mut::<tcp::Socket>(h);
                     s.set_keep_alive(Some(Duration::from_millis(7000)));
                 }
+                5 => {
+                    // established and idle, nothing outstanding: a user timeout without keep-alive (the
+                    // socket must either act when it expires or stop scheduling it)
+                    let s = n.sockets.get_mut::<tcp::Socket>(h);
+                    s.set_timeout(Some(Duration::from_millis(3000)));
+                }
                 _ => {}
             }
         }
@@ -127,7 +134,7 @@ fn start_sock(n: &mut Node, i: usize) {
             let s = n.sockets.get_mut::<dns::Socket>(h);
             let _ = s.start_query(n.iface.context(), "example.com", DnsQueryType::A);
         }
-        4 => {
+        4 | 5 => {
             let s = n.sockets.get_mut::<tcp::Socket>(h);
             let _ = s.listen(8000 + i as u16);
             n.dev.rx.push_back(tcp_frame(6000 + i as u16, 8000 + i as u16, 1000, None, true));
@@ -505,7 +512,7 @@ fn gen_case(rng: &mut Rng, id: String) -> Case {
     for _ in 0..nsock {
         // at most one DHCP client per interface: two clients share the interface's hardware address and the
         // server's broadcasts, so their schedules are not independent (the differential needs independence)
-        let mut k = rng.below(5);
+        let mut k = rng.below(6);
         if k == 3 && have_dhcp {
             k = 0;
         }
